@@ -339,6 +339,23 @@ def targeted(w):
                 yield SL(co, 0, k2)
                 yield SL(co, k1, w)
                 yield SL(co, k1, k2)
+    # T6b three-part concatenations whose parts are slices of ONE source with identical / overlapping / shifted source ranges
+    if w >= 8:
+        cs3 = [c for c in cuts(w) if 0 < c < w]
+        for c in cs3:
+            for d in cs3:
+                if c >= d:
+                    continue
+                slots = [(0, c), (c, d), (d, w)]
+                opts = []
+                for (s0, e0) in slots:
+                    k = e0 - s0
+                    cand = set(x for x in (s0, 0, c, d, w - k) if 0 <= x and x + k <= w)
+                    opts.append(sorted(cand))
+                for starts in product(*opts):
+                    if starts == tuple(s0 for s0, e0 in slots) and False:
+                        continue
+                    yield CO(*[(SL(a, st, st + (e0 - s0)), s0, e0) for st, (s0, e0) in zip(starts, slots)])
     # T7  conditionals
     for c in [OP('-', a), I(w, 0), I(w, 1), I(w, m), OP('-', OP('-', a)), OP('==', a, b), SL(a, w - 1, w) if w > 1 else a,
               COND(a, I(w, 0), I(w, 1)), OP('-', I(w, 0)), OP('^', a, a)]:
